@@ -1,6 +1,7 @@
 package harness
 
 import (
+	"math"
 	"bytes"
 	"fmt"
 	"strconv"
@@ -256,6 +257,13 @@ func runC09(env *Env, tier string) {
 		// recovered panics are still panics
 		if n := s.E.LF.EventsContaining("Panic"); n > 0 {
 			env.Violate("C09/panic-recovered", "the engine recovered from a panic while handling a connection (%d log events)", n)
+			return
+		}
+		if T := a.engT(); T >= math.MaxInt-64 || T <= math.MinInt+64 {
+			// A (well-formed) SequenceReset has moved the expected number to the end of the int range: no
+			// message can carry the number after it, so "the next well-formed message" does not exist.
+			// (The engine's counter wraps to MinInt there - recorded in DESIGN.md 8.7, not judged here.)
+			env.Stat("probe_expected_number_at_int_limit")
 			return
 		}
 		try := func() bool {
